@@ -74,6 +74,54 @@ def run(idx, rep, tier):
             ok = args[0] == args[2]
             rep.decide(ok, "symmetric-T", f"lanczos:Tridiagonal#{n_tri}", f"T = Tridiagonal({', '.join(args)})" + ("" if ok else ": lower and upper off-diagonal must be the same array"),
                        detail="" if ok else "asymmetric", locs=[idx.loc(lanczos.module, c)])
+    # the DIAGONAL of T holds the Rayleigh quotients q_j^H A q_j as the factorisation produced them: between the unpacking of the
+    # factorisation's result and the constructor only selections (trimming, batch element), `.real`, a cast to the same kind or a copy may
+    # touch it -- `abs`, a sign, arithmetic change T (the quotients of an indefinite operator are negative)
+    busy = set()
+
+    def value_chain(e, depth=0):
+        """names of the value-changing operations between e and the tuple unpacking it comes from, or None if not followed"""
+        if depth > 12:
+            return None
+        if isinstance(e, ast.Name):
+            if e.id in busy:
+                return []  # `x = f(x)`: the earlier value of the same name, whose own bindings are being collected
+            vals = [(v_, p_) for v_, p_, st_ in df.assignments(lanczos.node).get(e.id, []) if not isinstance(v_, ast.AugAssign)]
+            if not vals:
+                return []
+            out = []
+            busy.add(e.id)
+            for v_, p_ in vals:
+                if p_ is not None:
+                    continue  # a component of an unpacked call result: the origin
+                ch = value_chain(v_, depth + 1)
+                if ch is None:
+                    busy.discard(e.id)
+                    return None
+                out += ch
+            busy.discard(e.id)
+            return out
+        if isinstance(e, ast.Subscript):
+            return value_chain(e.value, depth + 1)
+        if isinstance(e, ast.Attribute) and e.attr in ("real", "T"):
+            return value_chain(e.value, depth + 1)
+        if isinstance(e, ast.Call) and df.is_xnp_call(e) in ("cast", "copy", "array", "conj") and e.args:
+            return value_chain(e.args[0], depth + 1)
+        if isinstance(e, ast.Call) and df.is_xnp_call(e) is not None and e.args:
+            ch = value_chain(e.args[0], depth + 1)
+            return None if ch is None else ch + [f"xnp.{df.is_xnp_call(e)}"]
+        if isinstance(e, ast.UnaryOp) and isinstance(e.op, ast.USub):
+            ch = value_chain(e.operand, depth + 1)
+            return None if ch is None else ch + ["negation"]
+        if isinstance(e, ast.BinOp):
+            return ["arithmetic"]
+        return None
+    for c in [c for c in df.calls(lanczos.node) if nospace(c.func) == "Tridiagonal" or nospace(c.func).endswith("vmap(Tridiagonal)")]:
+        if len(c.args) == 3:
+            ch = value_chain(c.args[1])
+            if ch:
+                rep.refuted("symmetric-T", "lanczos:diagonal", f"the diagonal handed to Tridiagonal (`{nospace(c.args[1])}`) went through {sorted(set(ch))}: the Rayleigh quotients "
+                            "q_j^H A q_j of an indefinite or negative definite operator are negative, T is no longer Q^H A Q", detail="diagonal-changed", locs=[idx.loc(lanczos.module, c)])
     if not n_tri:
         rep.missing_anchor("Tridiagonal construction in lanczos")
     # which buffer is the off-diagonal?  the one handed to Tridiagonal slots 0 and 2
